@@ -266,6 +266,10 @@ func TestVerifTrieChildStore(t *testing.T) {
 			tr.SetVersion(trie.V1)
 		}
 		lastRoot := trie.EmptyHash
+		// C03 with child tries: a SIBLING snapshot of the same parent receives the same operations just before the working
+		// trie does (two blocks built on one parent that happen to make the same writes); both must show the specification's
+		// state after every step -- neither may see, lose or corrupt anything through the other
+		var sib *InMemoryTrie
 		type persistedState struct {
 			root common.Hash
 			st   vcsState
@@ -441,8 +445,18 @@ func TestVerifTrieChildStore(t *testing.T) {
 			pm := vTry(func() {
 				switch o.Op {
 				case "Put", "Delete", "PutChild", "ClearChild", "SetChild", "DeleteChild":
+					if sib != nil {
+						if spm := vTry(func() { _ = mutate(sib) }); spm != "" {
+							res.Fail(b.ID, si, o.Op, "panic", "no panic", spm, "C03/sibling-snapshots-same-writes/"+o.Op+"/panic", prefix)
+							sib = nil
+						}
+					}
 					if err := mutate(tr); err != nil {
-						fail(mutationOwner(), "err", "nil", err.Error(), o.Op+"/error")
+						owner, sig := mutationOwner(), o.Op+"/error"
+						if sib != nil && owner == "C04" && vEnvStr("VERIF_PROP", "C04") == "C03" {
+							owner, sig = "C03", "sibling-snapshots-same-writes/"+o.Op+"/working-trie-disturbed/error"
+						}
+						fail(owner, "err", "nil", err.Error(), sig)
 						failed = true
 					}
 				case "Commit":
@@ -469,7 +483,9 @@ func TestVerifTrieChildStore(t *testing.T) {
 						readBack(persisted[i].root, persisted[i].st, "earlier")
 					}
 					persisted = append(persisted, persistedState{r, comm})
-					tr = tr.Snapshot()
+					parentTrie := tr
+					tr = parentTrie.Snapshot()
+					sib = parentTrie.Snapshot()
 				case "Reopen":
 					if brokenCommit {
 						// the committed state is one the real code could not read back (already recorded):
@@ -490,12 +506,18 @@ func TestVerifTrieChildStore(t *testing.T) {
 						nt.SetVersion(trie.V1)
 					}
 					tr = nt.Snapshot()
+					sib = nt.Snapshot()
 				default:
 					t.Fatalf("VERIF-INFRA unknown op %q", o.Op)
 				}
 			})
 			if pm != "" {
-				fail("C04", "panic", "no panic", pm, o.Op+"/panic")
+				if sib != nil && o.Op != "Commit" && o.Op != "Reopen" && vEnvStr("VERIF_PROP", "C04") == "C03" {
+					fail("C03", "panic", "no panic", pm, "sibling-snapshots-same-writes/"+o.Op+"/working-trie-disturbed/panic")
+					failed = true
+				} else {
+					fail("C04", "panic", "no panic", pm, o.Op+"/panic")
+				}
 			}
 			if !failed {
 				// the working trie (desynchronises the replay whoever owns the disagreement)
@@ -504,11 +526,30 @@ func TestVerifTrieChildStore(t *testing.T) {
 					if o.Op != "Reopen" && o.Op != "Commit" {
 						owner = mutationOwner()
 					}
-					fail(owner, field, exp, got, o.Op+"/working/"+work.class()+"/"+fc)
+					sig := o.Op + "/working/" + work.class() + "/" + fc
+					if sib != nil && owner == "C04" && vEnvStr("VERIF_PROP", "C04") == "C03" {
+						// a trie built in memory from the same pre-state takes the operation correctly; this one has a sibling
+						// snapshot that just received the same write: under C03 the disturbance is the sibling's
+						owner, sig = "C03", "sibling-snapshots-same-writes/"+o.Op+"/working-trie-disturbed/"+fc
+					}
+					fail(owner, field, exp, got, sig)
 					failed = true
 				}
 			}
+			if !failed && sib != nil {
+				// the working trie agrees with the specification: so must the sibling that received the same writes
+				if spm := vTry(func() {
+					if field, exp, got, fc := vcsCompareTrie(res, sib, work); field != "" {
+						res.Fail(b.ID, si, o.Op, "sibling "+field, exp, got, "C03/sibling-snapshots-same-writes/"+o.Op+"/"+work.class()+"/"+fc, prefix)
+						sib = nil
+					}
+				}); spm != "" {
+					res.Fail(b.ID, si, o.Op, "panic", "no panic", spm, "C03/sibling-snapshots-same-writes/"+o.Op+"/panic", prefix)
+					sib = nil
+				}
+			}
 			if failed {
+				sib = nil
 				// re-synchronise: new table holding the committed state, working trie rebuilt from the specification
 				_ = pdb.Close()
 				pdb, err = database.NewPebble("", true)
